@@ -5,6 +5,7 @@ use serde_json::{json, Value};
 
 pub mod c01;
 pub mod c02;
+pub mod c03;
 pub mod c04;
 pub mod c05;
 pub mod c06;
@@ -12,16 +13,18 @@ pub mod c07;
 pub mod c08;
 pub mod c09;
 pub mod c10;
+pub mod c13;
 pub mod c15;
 pub mod c16;
 pub mod c20;
 
-pub const ALL: &[&str] = &["C01", "C02", "C04", "C05", "C06", "C07", "C08", "C09", "C10", "C15", "C16", "C20"];
+pub const ALL: &[&str] = &["C01", "C02", "C03", "C04", "C05", "C06", "C07", "C08", "C09", "C10", "C13", "C15", "C16", "C20"];
 
 pub fn subchecks(prop: &str, tier: Tier) -> Vec<SubCheck> {
     match prop {
         "C01" => c01::subchecks(tier),
         "C02" => c02::subchecks(tier),
+        "C03" => c03::subchecks(tier),
         "C04" => c04::subchecks(tier),
         "C05" => c05::subchecks(tier),
         "C06" => c06::subchecks(tier),
@@ -29,6 +32,7 @@ pub fn subchecks(prop: &str, tier: Tier) -> Vec<SubCheck> {
         "C08" => c08::subchecks(tier),
         "C09" => c09::subchecks(tier),
         "C10" => c10::subchecks(tier),
+        "C13" => c13::subchecks(tier),
         "C15" => c15::subchecks(tier),
         "C16" => c16::subchecks(tier),
         "C20" => c20::subchecks(tier),
